@@ -1020,6 +1020,11 @@ def c12_model_configs(tier):
         ep_config("m_v5s_rm2", quota=q, ver=5, role="server", ids="Ids123", n=n, kinds="KPub12", extra="XBurst", outs="OOk", imm=F, gp=F, rm=2),
         ep_config("m_v5c_rm1", quota=q, ver=5, role="client", ids="Ids12", n=n, kinds="KPub01", extra="XBurst", outs="OOk", imm=F, gp=F, rm=1),
         ep_config("m_v3c_r2", quota=q, ver=3, role="client", ids="Ids123", n=n, kinds="KPub01", extra="XBurst", outs="OOk", imm=F, gp=F, mr=2),
+        # a payload that is being streamed when the limit is reached: its remaining pieces are not held back by the
+        # limit (count 1; bytes 20 = one publish of 17), the packets behind it are, and reading resumes afterwards
+        ep_config("m_v3s_r1_strm", quota=q, ver=3, role="server", ids="Ids12", n=n + 1, kinds="KStrm1", chunks="C48", mc=4, outs="OOk", imm=F, gp=F, mr=1),
+        ep_config("m_v3s_s20_strm", quota=q, ver=3, role="server", ids="Ids12", n=n + 1, kinds="KStrm1", chunks="C48", mc=4, outs="OOk", imm=F, gp=F, mrs=20),
+        ep_config("m_v5s_s20_strm", quota=q, ver=5, role="server", ids="Ids12", n=n + 1, kinds="KStrm1", chunks="C48", mc=4, outs="OOk", imm=F, gp=F, mrs=20),
     ]
 
 
